@@ -56,6 +56,12 @@ def sym_str(x=""):
         return x
     if isinstance(x, _cv().CV):
         return _cv().apply(builtins.str, x)
+    if not isinstance(x, (str, int, float, bytes, type(None), list, tuple, dict)):
+        # an object whose __str__/__repr__ yields a symbolic string (e.g. FortranLine)
+        f = getattr(type(x), "__str__", None)
+        r = f(x) if f is not None and f is not object.__str__ else type(x).__repr__(x)
+        if isinstance(r, (SymStr, _cv().CV, str)):
+            return r
     if isinstance(x, SymInt):
         return builtins.str(builtins.int(x))
     return builtins.str(x)
@@ -210,11 +216,35 @@ def fv_join(sep, items):
     return sep.join(items)
 
 
+def fv_in(x, container, negate=False):
+    """`x in "literal"` for symbolic x (str.__contains__ is a C method that rejects proxies)"""
+    cvm = _cv()
+    if isinstance(x, cvm.CV):
+        r = cvm.apply(lambda v: v in container, x)
+    elif isinstance(x, SymStr):
+        r = SymStr.lift(container).contains(x)
+    else:
+        r = x in container
+    if negate:
+        return (not r) if isinstance(r, bool) else ~r if isinstance(r, SymBool) else cvm.apply(lambda b: not b, r)
+    return r
+
+
 class _JoinRewriter(ast.NodeTransformer):
-    """'<literal>'.join(x)  ->  __fv_join('<literal>', x): str.join is a C method that rejects proxies"""
+    """'<literal>'.join(x)  ->  fv_join_hook('<literal>', x): str.join is a C method that rejects proxies"""
 
     def __init__(self):
         self.hits = 0
+
+    def visit_Compare(self, node):
+        self.generic_visit(node)
+        if (len(node.ops) == 1 and isinstance(node.ops[0], (ast.In, ast.NotIn)) and isinstance(node.comparators[0], ast.Constant)
+                and isinstance(node.comparators[0].value, str)):
+            self.hits += 1
+            return ast.copy_location(ast.Call(func=ast.Name(id="fv_in_hook", ctx=ast.Load()),
+                                              args=[node.left, node.comparators[0], ast.Constant(isinstance(node.ops[0], ast.NotIn))],
+                                              keywords=[]), node)
+        return node
 
     def visit_Call(self, node):
         self.generic_visit(node)
@@ -222,17 +252,17 @@ class _JoinRewriter(ast.NodeTransformer):
         if (isinstance(f, ast.Attribute) and f.attr == "join" and isinstance(f.value, ast.Constant) and isinstance(f.value.value, str)
                 and len(node.args) == 1 and not node.keywords):
             self.hits += 1
-            return ast.copy_location(ast.Call(func=ast.Name(id="__fv_join", ctx=ast.Load()), args=[f.value, node.args[0]], keywords=[]), node)
+            return ast.copy_location(ast.Call(func=ast.Name(id="fv_join_hook", ctx=ast.Load()), args=[f.value, node.args[0]], keywords=[]), node)
         return node
 
 
-def _rewritten(fn):
+def _rewritten(fn, clsname=None):
     """recompile function `fn` with literal.join(...) calls rewritten; None if not applicable"""
     try:
         src = textwrap.dedent(inspect.getsource(fn))
     except (OSError, TypeError):
         return None
-    if ".join(" not in src or "super()" in src or fn.__closure__:
+    if (".join(" not in src and " in \"" not in src and " in '" not in src) or "super()" in src or fn.__closure__:
         return None
     tree = ast.parse(src)
     rw = _JoinRewriter()
@@ -241,13 +271,20 @@ def _rewritten(fn):
         return None
     fdef = tree.body[0]
     fdef.decorator_list = []
+    if clsname:
+        # compile inside a class body of the same name so that private names (__x) are mangled as in the original
+        tree = ast.Module(body=[ast.ClassDef(name=clsname, bases=[], keywords=[], body=[fdef], decorator_list=[])], type_ignores=[])
     ast.fix_missing_locations(tree)
     g = fn.__globals__
-    g["__fv_join"] = fv_join
+    g["fv_join_hook"] = fv_join
+    g["fv_in_hook"] = fv_in
     ns = {}
     code = compile(tree, inspect.getsourcefile(fn) or "<rewritten>", "exec")
     exec(code, g, ns)
-    new = ns[fdef.name]
+    if clsname:
+        new = [v for v in ns[clsname].__dict__.values() if isinstance(v, types.FunctionType)][0]
+    else:
+        new = ns[fdef.name]
     new.__defaults__ = fn.__defaults__
     new.__kwdefaults__ = fn.__kwdefaults__
     new.__qualname__ = fn.__qualname__
@@ -322,7 +359,7 @@ def patched(*modules, extra=None):
                     for ck, cvl in list(v.__dict__.items()):
                         fnobj = cvl.fget if isinstance(cvl, property) else (cvl.__func__ if isinstance(cvl, (staticmethod, classmethod)) else cvl)
                         if isinstance(fnobj, types.FunctionType):
-                            nv = _rewritten(fnobj)
+                            nv = _rewritten(fnobj, v.__name__)
                             if nv is not None:
                                 if isinstance(cvl, property):
                                     setc(v, ck, property(nv, cvl.fset, cvl.fdel))
